@@ -212,6 +212,12 @@ func (r *jsRenderer) ty(s *Src) JV {
 			vals.A = append(vals.A, jInt(v))
 		}
 		return jObj(kv("type", jStr("integer")), kv("enum", vals))
+	case SNullable:
+		if names, ok := jsTypeArray(s.Elem); ok && r.useTypeArray() {
+			r.style["typeArray.nullable"]++
+			return jObj(kv("type", jArr(append(names, jStr("null"))...)))
+		}
+		return jObj(kv("anyOf", jArr(r.ty(s.Elem), jObj(kv("type", jStr("null"))))))
 	case SArray:
 		return jObj(kv("type", jStr("array")), kv("items", r.ty(s.Elem)))
 	case SDict:
